@@ -19,6 +19,7 @@ import (
 	"sort"
 	"strconv"
 	"strings"
+	"testing"
 
 	"pgregory.net/rapid"
 
@@ -42,6 +43,7 @@ type c28DDLCase struct {
 	floor    uint64
 	tag      int
 
+	excluded         int
 	createdWhileHeld bool
 	genAfter         map[string]bool
 	cls              map[string]bool
@@ -204,13 +206,22 @@ func c28DDLRun(rt *rapid.T, srv *vsql.Server, admin *vsql.Session, rec *vh.Recor
 			c.headHas[b], c.headLast[b] = c.has[b], c.lastOn[b]
 		case op == "branch" && len(c.branches) < 5:
 			src := rapid.SampledFrom(c.branches).Draw(rt, "branch.from")
-			if c.headHas[src] && len(have) == 0 {
-				// Not generated: a branch forked from a head that still has the table while no working
-				// set has it any more (the tracker has forgotten the sequence). On the unmodified tree
-				// the first generated INSERT on such a branch fails with "autoIncrementTracker: unable to
-				// find sequence for table a" — an availability problem, not a repeated id.
-				c.cls["skipped_branch_from_head_with_forgotten_sequence"] = true
-				continue
+			if c.headHas[src] && (len(have) == 0 || c.headLast[src] > c.floor) {
+				// Known finding c28FindingHeadRows: DROP TABLE re-establishes the sequence from the
+				// working sets only. A head that still holds the table may hold ids above the lowered
+				// sequence (or the sequence is forgotten altogether); a branch forked from that head
+				// resurrects those rows and its generated inserts collide with them / cannot find the
+				// sequence. While the finding is open the shape is not generated (counted as excluded);
+				// otherwise the branch is created and the property is asserted as stated: ids on the new
+				// branch must exceed everything its table holds.
+				if vh.OpenFinding("C28", c28FindingHeadRows) {
+					c.cls["skipped_branch_from_head_above_lowered_sequence"] = true
+					c.excluded++
+					continue
+				}
+				if c.headLast[src] > c.floor {
+					c.floor = c.headLast[src]
+				}
 			}
 			nb := fmt.Sprintf("n%d", len(c.branches))
 			s, who := at(i, src)
@@ -239,5 +250,55 @@ func c28DDLRun(rt *rapid.T, srv *vsql.Server, admin *vsql.Session, rec *vh.Recor
 		classes = append(classes, k)
 	}
 	sort.Strings(classes)
+	if c.excluded > 0 {
+		rec.Excluded(c.excluded)
+	}
 	rec.Case(strings.Join(c.hist, " | "), nontrivial, classes...)
+}
+
+const c28FindingHeadRows = "C28-drop-lowers-sequence-below-head-rows"
+
+// c28PinnedHeadRows: DROP TABLE in the working set of the only branch whose rows carry the high
+// ids lowers (or forgets) the sequence although that branch's HEAD still holds the table; a branch
+// forked from that HEAD then cannot take generated inserts without repeating ids.
+func c28PinnedHeadRows(t *testing.T, srv *vsql.Server, admin *vsql.Session) {
+	for _, otherHolds := range []bool{true, false} {
+		db := srv.NewDBName()
+		admin.MustExec(t, "CREATE DATABASE "+db)
+		s := txOpen(t, srv, "S", db)
+		s.MustExec(t, "CREATE TABLE other (x INT PRIMARY KEY)")
+		s.MustExec(t, "CALL dolt_commit('-Am','init')")
+		s.MustExec(t, "CALL dolt_branch('b1')")
+		s.MustExec(t, "CREATE TABLE a (id INT PRIMARY KEY AUTO_INCREMENT, v INT)")
+		s.MustExec(t, "INSERT INTO a (v) VALUES (1),(2),(3)")
+		s.MustExec(t, "CALL dolt_commit('-Am','a with ids 1..3')")
+		if otherHolds {
+			s.MustExec(t, "USE `"+db+"/b1`")
+			s.MustExec(t, "CREATE TABLE a (id INT PRIMARY KEY AUTO_INCREMENT, v INT)")
+			s.MustExec(t, "USE `"+db+"/main`")
+		}
+		s.MustExec(t, "DROP TABLE a") // main's working set only; main's HEAD keeps a with ids 1..3
+		s.MustExec(t, "CALL dolt_branch('n1','main')")
+		s.MustExec(t, "USE `"+db+"/n1`")
+		err := s.Exec("INSERT INTO a (v) VALUES (4)")
+		var got string
+		if err == nil {
+			r := s.MustQuery(t, "SELECT id FROM a WHERE v=4")
+			if len(r.Data) == 1 {
+				got = r.Data[0][0]
+			}
+		}
+		s.Close()
+		_ = admin.Exec("DROP DATABASE " + db)
+		if err == nil && got != "1" && got != "2" && got != "3" {
+			continue
+		}
+		what := fmt.Sprintf("after DROP TABLE in a working set the sequence is re-established from working sets only; a branch forked from the HEAD that still holds the table (ids 1..3) cannot take a generated INSERT: %v (id %q) [another branch holds an empty table of that name: %v]", err, got, otherHolds)
+		if vh.OpenFinding("C28", c28FindingHeadRows) {
+			vh.ReportKnown("C28", c28FindingHeadRows, what)
+			continue
+		}
+		vh.NoteViolation(t.Name(), "", what)
+		t.Errorf("%s", what)
+	}
 }
